@@ -63,10 +63,10 @@ CLAIMED = {
             'false rejection of an in-order update (D3) is a listed known finding, any other deviation is a violation. List and MerkleReg are outside.', '§6 C16'),
     'C17': ('validate_merge on all pairs SPEC(U,K1), SPEC(U,K2) (correct use) and on pairs from two independent universes sharing actor ids (misuse): '
             'same verdict both ways, error iff some dot currently witnesses different members; the add_all false positive (D4) is a listed known finding. '
-            'Orswot and LWWReg; Map::validate_merge is outside.', '§6 C17'),
+            'Orswot, LWWReg and Map<Orswot> (correct use accepted both ways; a dot that witnesses different keys is flagged both ways).', '§6 C17'),
     'C18': ('reset_remove(c) with an arbitrary clock c (below, above, concurrent) on every SPEC state of VClock, MVReg and Orswot is compared with '
-            'the dot-subtraction specification; empty-clock no-op, own-clock empties, c1 then c2 = join, idempotence. Map/GCounter/PNCounter delegate '
-            'to these and are covered through them only.', '§6 C18'),
+            'the dot-subtraction specification; empty-clock no-op, own-clock empties, c1 then c2 = join, idempotence. GCounter / PNCounter and '
+            'Map<Orswot> (entry clocks, nested sets, pending removes; 10 output slices) are compared with the same specification.', '§6 C18'),
     'C20': (IND + 'Every lemma compares with == (the PartialEq of the crate) against SPEC(U,K), which holds exactly the clock, the surviving elements with '
             'their witnesses and the still-pending removes: equal knowledge gives == states and a fully delivered remove leaves no residue (Orswot, '
             'MVReg, Map<Orswot> op path, counters, registers).', '§6 C20'),
